@@ -35,6 +35,7 @@ func C15(ctx *core.Ctx) {
 		return
 	}
 	c15OpenIsOneCriticalSection(ctx, r)
+	c15CloseAnnouncedOnSuccessOnly(ctx, r)
 	ctx.Rule("C15.R1", "lifecycle mutex: no blocking operation / blocking package call while held, released on all exits, never re-acquired by a callee", 8)
 	ctx.Rule("C15.R2", "close-token and decoder are per generation: the reader loop receives the token on a channel freshly made by the Open that spawned it (the same channel close() signals on), and decodes with a framing transport it allocated itself", 2)
 	ctx.Rule("C15.R3", "every return of the reader loop is preceded by consuming the close token or by close(cause)/Close()", 4)
